@@ -7,7 +7,9 @@ Names == IF Tier = "q" THEN {"PK", "db", "A", "Boot0001", "my-var", "fwupd-ddc0e
          ELSE {"PK", "KEK", "db", "dbx", "A", "Boot0001", "LoaderEntrySelected", "N64", "my-var", "fwupd-ddc0ee61-e7f0-4e7d-acc5-c070a398838e-0", "trailing-", "-leading", "a.b c", "dbx-", "db_1"}
 Guids == IF Tier = "q" THEN {"global", "lead0"} ELSE {"global", "sec", "lead0", "custom"}
 Attrs == {39, 103, 7}      \* 0x27 NV|BS|RT|AT, 0x67 with APPEND_WRITE, 0x07
-Payloads == IF Tier = "q" THEN {"empty", "d3", "dc"} ELSE {"empty", "d1", "d3", "dc", "raw1"}
+(* the payload is data: databases, one raw byte, a complete signed update staged as another variable's value ("update"), *)
+(* 48 raw bytes laid out like a minimal descriptor ("desclike")                                                         *)
+Payloads == IF Tier = "q" THEN {"empty", "d3", "dc", "update", "desclike"} ELSE {"empty", "d1", "d3", "dc", "raw1", "update", "desclike"}
 Zones == {"UTC", "+09:00", "-03:30"}
 Keys == IF Tier = "q" THEN {"k1"} ELSE {"k1", "k3072", "k4096"}
 Init == done = FALSE /\ \E n \in Names, g \in Guids, a \in Attrs, p \in Payloads, z \in Zones, k \in Keys :
